@@ -108,6 +108,8 @@ pub fn run_case(case: &Case, rc: &RunCfg) -> Outcome {
     match (case.family.as_str(), coll, val) {
         ("key", "list", _) => run_key::<KeyExpList<crate::instr::XKey, i32, u64>>(case, rc),
         ("key", _, _) => run_key::<KeyExpTree<crate::instr::XKey, i32, u64>>(case, rc),
+        ("map", "tree", "big") => run_ord::<MapTree<crate::instr::MKey, crate::instr::Big>>(case, rc),
+        ("set", "tree", "big") => run_ord::<SetTree<crate::instr::MKey, SItem<crate::instr::Big>>>(case, rc),
         ("map", "list", "wide") => run_ord::<MapList<crate::instr::MKey, crate::instr::Wide>>(case, rc),
         ("map", _, "wide") => run_ord::<MapTree<crate::instr::MKey, crate::instr::Wide>>(case, rc),
         ("set", "list", "wide") => run_ord::<SetList<SItem<crate::instr::Wide>>>(case, rc),
@@ -393,10 +395,10 @@ pub fn jobs(pn: u32, tier: Tier) -> Vec<Job> {
             let rule = Rule::all("history with >=1 removal of a two-children node and >=1 removal of a black leaf (sentinel path)", &["rm_two_children", "rm_black_leaf"]);
             let req = ["rm_red_leaf", "rm_black_leaf", "rm_one_child", "rm_two_children", "rotation_or_relink", "red_root"];
             let w = [40, 30, 2, 1, 1, 2, 2, 8, 0, 0];
-            for (fam, vals) in [("map", vec!["u64", "string", "wide"]), ("set", vec!["u64", "bare", "string", "wide"])] {
+            for (fam, vals) in [("map", vec!["u64", "string", "wide", "big"]), ("set", vec!["u64", "bare", "string", "wide", "big"])] {
                 v.push(job(&format!("{}-tree-churn", fam), random(ord_cases(id, ord_mix(fam, "tree", &vals, &[8, 16, 64], w, 0..=300, 3)), n(6_000, 150_000)), rule.clone(), &req));
                 v.push(job(&format!("{}-tree-big", fam), random(ord_cases(id, ord_mix(fam, "tree", &vals, &[300, 3000], w, 300..=1500, 3)), n(150, 4_000)), rule.clone(), &["height_ge_6", "arena_growth_x2"]));
-                v.push(job(&format!("{}-tree-insertion-runs", fam), random(ord_runs_cases(id, fam, "tree", vals.clone(), [0, 6, 0, 0, 0, 0, 0, 3, 0, 0]), n(800, 20_000)), rule.clone(), &["run_ascending", "run_descending", "height_ge_6"]));
+                v.push(job(&format!("{}-tree-insertion-runs", fam), random(ord_runs_cases(id, fam, "tree", vals.clone(), [0, 6, 0, 0, 1, 0, 0, 3, 0, 0]), n(800, 20_000)), rule.clone(), &["run_ascending", "run_descending", "height_ge_6"]));
                 if !q {
                     let mut m = ord_mix(fam, "tree", &vals, &[4096, 100_000], w, 0..=4000, 3);
                     m.snap = true;
@@ -406,6 +408,7 @@ pub fn jobs(pn: u32, tier: Tier) -> Vec<Job> {
                 // the same closure with a heap-allocated and with a large plain value type
                 v.push(job(&format!("{}-tree-enum-string", fam), JobKind::Enumerate { spec: ord_enum(id, fam, "tree", "string", if q { 5 } else { 7 }, true, &[], 2_000_000) }, rule.clone(), &[]));
                 v.push(job(&format!("{}-tree-enum-wide", fam), JobKind::Enumerate { spec: ord_enum(id, fam, "tree", "wide", if q { 5 } else { 7 }, true, &[], 2_000_000) }, rule.clone(), &[]));
+                v.push(job(&format!("{}-tree-enum-big", fam), JobKind::Enumerate { spec: ord_enum(id, fam, "tree", "big", if q { 5 } else { 7 }, true, &[], 2_000_000) }, rule.clone(), &[]));
             }
             for (fam, vals) in [("map", vec!["u64", "string"]), ("set", vec!["u64", "bare"])] {
                 v.push(job(&format!("{}-tree-huge", fam), random(ord_huge_cases(id, fam, "tree", vals, [30, 30, 2, 1, 0, 2, 2, 8, 0, 0], 270_000), n(2, 40)), Rule::any("a structure of >=4096 entries built by a bulk fill", &["stored_ge_4096"]), &["stored_ge_4096"]));
@@ -419,7 +422,7 @@ pub fn jobs(pn: u32, tier: Tier) -> Vec<Job> {
             v.push(job("key-tree-churn", random(key_cases(id, key_mix("tree", &[8, 16, 64], 12, 4, [40, 8, 8, 8, 8, 22, 1, 1], 0..=300, Some(0..=4))), n(6_000, 150_000)), krule.clone(), &["rm_two_children", "rm_black_leaf", "rm_red_leaf", "rm_one_child", "rotation_or_relink"]));
             v.push(job("key-tree-big", random(key_cases(id, key_mix("tree", &[300, 3000], 1500, 30, [50, 6, 6, 6, 6, 16, 0, 1], 300..=1500, Some(0..=600))), n(150, 4_000)), krule.clone(), &["height_ge_6", "arena_growth_x2"]));
             v.push(job("key-tree-big-clear-big", random(key_clear_cases_sized(id, "tree", vec![300, 3000], 1500, 30, 100..=500), n(100, 3_000)), krule.clone(), &[]));
-            for (fam, vals) in [("map", vec!["u64", "string", "wide"]), ("set", vec!["u64", "bare", "string", "wide"])] {
+            for (fam, vals) in [("map", vec!["u64", "string", "wide", "big"]), ("set", vec!["u64", "bare", "string", "wide", "big"])] {
                 v.push(job(&format!("{}-tree-big-clear-big", fam), random(ord_clear_cases_sized(id, fam, "tree", vals, vec![300, 3000], 100..=500), n(100, 3_000)), rule.clone(), &[]));
             }
             v.push(job("key-tree-enum", JobKind::Enumerate { spec: if q { key_enum(id, "tree", 3, 2, 3, true, true, 400_000) } else { key_enum(id, "tree", 4, 2, 3, true, true, 1_500_000) } }, krule, &[]));
@@ -442,7 +445,7 @@ pub fn jobs(pn: u32, tier: Tier) -> Vec<Job> {
         }
         4 | 5 => {
             let fam: &'static str = if pn == 4 { "map" } else { "set" };
-            let vals: Vec<&'static str> = if pn == 4 { vec!["u64", "string", "wide"] } else { vec!["u64", "string", "bare", "wide"] };
+            let vals: Vec<&'static str> = if pn == 4 { vec!["u64", "string", "wide", "big"] } else { vec!["u64", "string", "bare", "wide", "big"] };
             let rule = Rule::all("a deletion of a node with two children (successor entity move) followed by a lookup", &["lookup_after_2child_removal"]);
             let req = ["delete_absent", "get_present", "get_absent", "rm_two_children", "clear_nonempty"];
             let w = [36, 26, 26, 3, 1, 0, 3, 0, 0, 0];
@@ -450,7 +453,7 @@ pub fn jobs(pn: u32, tier: Tier) -> Vec<Job> {
             v.push(job(&format!("{}-tree-medium", fam), random(ord_cases(id, ord_mix(fam, "tree", &vals, &[16, 64], w, 0..=300, 3)), n(5_000, 120_000)), rule.clone(), &req));
             v.push(job(&format!("{}-tree-big", fam), random(ord_cases(id, ord_mix(fam, "tree", &vals, &[300, 3000], w, 300..=1500, 3)), n(150, 4_000)), rule.clone(), &["height_ge_6"]));
             v.push(job(&format!("{}-tree-big-clear-big", fam), random(ord_clear_cases_sized(id, fam, "tree", vals.clone(), vec![300, 3000], 100..=500), n(100, 3_000)), rule.clone(), &[]));
-            v.push(job(&format!("{}-tree-insertion-runs", fam), random(ord_runs_cases(id, fam, "tree", vals.clone(), [0, 6, 4, 0, 0, 0, 1, 0, 0, 0]), n(600, 15_000)), rule.clone(), &["run_ascending", "run_descending"]));
+            v.push(job(&format!("{}-tree-insertion-runs", fam), random(ord_runs_cases(id, fam, "tree", vals.clone(), [0, 6, 4, 0, 2, 0, 1, 0, 0, 0]), n(600, 15_000)), rule.clone(), &["run_ascending", "run_descending"]));
             v.push(job(&format!("{}-tree-look-churn-look", fam), JobKind::Fixed { cases: ord_period_cases(id, fam, "tree", !q), stop_on_first: false }, Rule::any("two looks at one key with the slot it was found in turned over in between", &["sparse_observations", "reinsert_expired_key", "lookup_after_removal", "query_with_expired_copies"]), &[]));
             v.push(job(&format!("{}-tree-sparse-observations", fam), random(ord_sparse_cases(id, fam, "tree", vals.clone()), n(400, 12_000)), Rule::any("a history of >=600 operations in which observations are >=100 operations apart", &["sparse_observations"]), &["sparse_observations"]));
             v.push(job(&format!("{}-tree-deep", fam), JobKind::Fixed { cases: ord_deep_cases(id, fam, "u64", !q), stop_on_first: false }, Rule::any("a structure with a root-to-leaf path of >= 33 nodes", &["height_ge_33"]), &[]));
@@ -483,6 +486,7 @@ pub fn jobs(pn: u32, tier: Tier) -> Vec<Job> {
             v.push(job("key-export-medium", random(key_cases(id, key_mix("tree", &[16, 64], 20, 5, [40, 6, 6, 6, 6, 20, 1, 1], 0..=200, Some(0..=24))), n(5_000, 120_000)), rule.clone(), &req));
             v.push(job("key-export-big", random(key_cases(id, key_mix("tree", &[300, 3000], 1500, 30, [50, 5, 5, 5, 5, 16, 0, 1], 300..=1500, Some(0..=1600))), n(150, 4_000)), rule.clone(), &["height_ge_6", "export_after_free"]));
             v.push(job("key-export-big-clear-big", random(key_clear_cases_sized(id, "tree", vec![300, 3000], 1500, 30, 100..=500), n(100, 3_000)), rule.clone(), &[]));
+            v.push(job("key-export-full-universe-mass-expiry", random(key_full_universe_cases(id, "tree"), n(4_000, 100_000)), Rule::any("export of a tree in which >=1 expired entry is still stored", &["export_expired_stored"]), &[]));
             v.push(job("key-export-deep", JobKind::Fixed { cases: key_deep_cases(id, !q, false, true), stop_on_first: false }, Rule::any("a structure with a root-to-leaf path of >= 33 nodes", &["height_ge_33"]), &[]));
             v.push(job("key-export-huge", random(key_huge_cases(id, "both", [30, 6, 6, 6, 6, 18, 0, 1], 270_000, true), n(3, 60)), Rule::any("a structure of >=4096 entries built by a bulk fill", &["stored_ge_4096"]), &["stored_ge_4096"]));
             v.push(job("key-export-enum", JobKind::Enumerate { spec: if q { key_enum(id, "tree", 3, 2, 3, true, true, 400_000) } else { key_enum(id, "tree", 4, 2, 3, true, true, 1_500_000) } }, rule.clone(), &[]));
@@ -492,10 +496,10 @@ pub fn jobs(pn: u32, tier: Tier) -> Vec<Job> {
             let rule = Rule::any("a non-empty handle to a non-root node used for write or delete in a tree of >=3 entries", &["hwrite_nonroot_ge_3", "hdel_nonroot_ge_3"]);
             let req = ["hprobe_below_min", "hprobe_equal", "hprobe_gap", "hprobe_above_max", "hwrite_nonroot_ge_3", "hdel_nonroot_ge_3"];
             let w = [34, 8, 4, 1, 1, 24, 12, 12, 0, 0];
-            for (fam, vals) in [("map", vec!["u64", "string", "wide"]), ("set", vec!["u64", "string", "wide"])] {
+            for (fam, vals) in [("map", vec!["u64", "string", "wide", "big"]), ("set", vec!["u64", "string", "wide", "big"])] {
                 v.push(job(&format!("{}-tree-handles", fam), random(ord_cases(id, ord_mix(fam, "tree", &vals, &[4, 6, 8, 16, 64], w, 0..=120, 1)), n(8_000, 200_000)), rule.clone(), &req));
                 v.push(job(&format!("{}-tree-handles-big", fam), random(ord_cases(id, ord_mix(fam, "tree", &vals, &[300, 3000], [40, 14, 2, 0, 0, 20, 8, 12, 0, 0], 300..=1500, 3)), n(120, 3_000)), rule.clone(), &["height_ge_6"]));
-                v.push(job(&format!("{}-tree-insertion-runs", fam), random(ord_runs_cases(id, fam, "tree", vals.clone(), [0, 2, 0, 0, 0, 6, 2, 2, 0, 0]), n(600, 15_000)), rule.clone(), &["run_ascending", "run_descending"]));
+                v.push(job(&format!("{}-tree-insertion-runs", fam), random(ord_runs_cases(id, fam, "tree", vals.clone(), [0, 2, 0, 0, 1, 6, 2, 2, 0, 0]), n(600, 15_000)), rule.clone(), &["run_ascending", "run_descending"]));
                 v.push(job(&format!("{}-tree-big-clear-big", fam), random(ord_clear_cases_sized(id, fam, "tree", vals.clone(), vec![300, 3000], 100..=500), n(80, 2_000)), rule.clone(), &[]));
                 v.push(job(&format!("{}-tree-look-churn-look", fam), JobKind::Fixed { cases: ord_period_cases(id, fam, "tree", !q), stop_on_first: false }, Rule::any("two looks at one key with the slot it was found in turned over in between", &["sparse_observations", "reinsert_expired_key", "lookup_after_removal", "query_with_expired_copies"]), &[]));
                 v.push(job(&format!("{}-tree-sparse-observations", fam), random(ord_sparse_cases(id, fam, "tree", vec!["u64", "string"]), n(300, 8_000)), Rule::any("a history of >=600 operations in which observations are >=100 operations apart", &["sparse_observations"]), &["sparse_observations"]));
@@ -508,12 +512,12 @@ pub fn jobs(pn: u32, tier: Tier) -> Vec<Job> {
             let rule = Rule::all("a neighbour step taken from an extreme entry", &["step_at_end"]);
             let req = ["step_at_end_root", "step_at_end_nonroot", "step_single_entry", "step_inner", "full_walk"];
             let w = [34, 14, 2, 1, 1, 0, 0, 6, 30, 8];
-            v.push(job("set-tree-steps", random(ord_cases(id, ord_mix("set", "tree", &["u64", "string", "bare", "wide"], &[4, 6, 8, 16, 64], w, 0..=120, 1)), n(10_000, 250_000)), rule.clone(), &req));
+            v.push(job("set-tree-steps", random(ord_cases(id, ord_mix("set", "tree", &["u64", "string", "bare", "wide", "big"], &[4, 6, 8, 16, 64], w, 0..=120, 1)), n(10_000, 250_000)), rule.clone(), &req));
             v.push(job("set-tree-steps-big", random(ord_cases(id, ord_mix("set", "tree", &["u64", "bare"], &[300, 3000], [50, 18, 0, 0, 0, 0, 0, 6, 20, 1], 300..=1500, 3)), n(120, 3_000)), rule.clone(), &["height_ge_6"]));
             v.push(job("set-tree-big-clear-big", random(ord_clear_cases_sized(id, "set", "tree", vec!["u64", "bare"], vec![300, 3000], 100..=500), n(80, 2_000)), rule.clone(), &[]));
             // structured insertion orders: blocks of descending / ascending runs build the sparse,
             // maximally deep shapes random orders practically never produce
-            v.push(job("set-tree-insertion-runs", random(ord_runs_cases(id, "set", "tree", vec!["u64", "bare"], [0, 2, 0, 0, 0, 0, 0, 1, 6, 1]), n(1_500, 40_000)), rule.clone(), &["run_ascending", "run_descending", "height_ge_6"]));
+            v.push(job("set-tree-insertion-runs", random(ord_runs_cases(id, "set", "tree", vec!["u64", "bare"], [0, 2, 0, 0, 1, 0, 0, 1, 6, 1]), n(1_500, 40_000)), rule.clone(), &["run_ascending", "run_descending", "height_ge_6"]));
             if !q {
                 v.push(job("set-tree-steps-large", random(ord_cases(id, ord_mix("set", "tree", &["u64", "bare"], &[4096], [60, 20, 0, 0, 0, 0, 0, 4, 10, 1], 0..=3000, 3)), 400), rule.clone(), &[]));
             }
@@ -528,17 +532,17 @@ pub fn jobs(pn: u32, tier: Tier) -> Vec<Job> {
             let mw = [30, 16, 8, 1, 1, 10, 8, 10, 0, 0];
             for coll in ["tree", "list"] {
                 v.push(job(&format!("key-{}", coll), random(key_cases(id, key_mix(coll, &[3, 6, 16, 64], 12, 4, kw, 0..=150, Some(0..=12))), n(8_000, 200_000)), rule.clone(), &[]));
-                v.push(job(&format!("map-{}", coll), random(ord_cases(id, ord_mix("map", coll, &["u64", "string", "wide"], &[4, 8, 16, 64], mw, 0..=150, 3)), n(6_000, 150_000)), rule.clone(), &[]));
-                v.push(job(&format!("set-{}", coll), random(ord_cases(id, ord_mix("set", coll, if coll == "tree" { &["u64", "string", "bare", "wide"] } else { &["u64", "string", "wide"] }, &[4, 8, 16, 64], ow, 0..=150, 3)), n(6_000, 150_000)), rule.clone(), &[]));
+                v.push(job(&format!("map-{}", coll), random(ord_cases(id, ord_mix("map", coll, if coll == "tree" { &["u64", "string", "wide", "big"] } else { &["u64", "string", "wide"] }, &[4, 8, 16, 64], mw, 0..=150, 3)), n(6_000, 150_000)), rule.clone(), &[]));
+                v.push(job(&format!("set-{}", coll), random(ord_cases(id, ord_mix("set", coll, if coll == "tree" { &["u64", "string", "bare", "wide", "big"] } else { &["u64", "string", "wide"] }, &[4, 8, 16, 64], ow, 0..=150, 3)), n(6_000, 150_000)), rule.clone(), &[]));
             }
             v.push(job("seg", random(seg_cases(id, SegMix { w: [30, 30, 12, 2, 4, 10, 10], len: 0..=60, thorough: !q, only_small: false }), n(8_000, 200_000)), rule.clone(), &[]));
             v.push(job("seg-long", random(seg_cases(id, SegMix { w: [50, 20, 8, 1, 3, 12, 6], len: 100..=600, thorough: !q, only_small: false }), n(300, 8_000)), rule.clone(), &[]));
             v.push(job("seg-hot-spots", random(seg_hot_cases(id, [14, 4, 2, 0, 1, 3, 1], 150..=700, false, None), n(300, 8_000)), rule.clone(), &[]));
             v.push(job("seg-mass-expiry", random(seg_mass_expiry_cases(id), n(100, 3_000)), rule.clone(), &[]));
             v.push(job("seg-17-enum", JobKind::Enumerate { spec: seg_enum(id, 2, 2, false, 3_000_000) }, rule.clone(), &[]));
-            v.push(job("map-tree-insertion-runs", random(ord_runs_cases(id, "map", "tree", vec!["u64", "string"], [0, 4, 2, 0, 0, 2, 1, 2, 0, 0]), n(400, 10_000)), rule.clone(), &[]));
-            v.push(job("set-tree-insertion-runs", random(ord_runs_cases(id, "set", "tree", vec!["u64", "bare"], [0, 4, 2, 0, 0, 2, 1, 2, 4, 1]), n(400, 10_000)), rule.clone(), &[]));
-            v.push(job("set-list-insertion-runs", random(ord_runs_cases(id, "set", "list", vec!["u64"], [0, 4, 2, 0, 0, 2, 1, 2, 4, 1]), n(200, 5_000)), rule.clone(), &[]));
+            v.push(job("map-tree-insertion-runs", random(ord_runs_cases(id, "map", "tree", vec!["u64", "string"], [0, 4, 2, 0, 1, 2, 1, 2, 0, 0]), n(400, 10_000)), rule.clone(), &[]));
+            v.push(job("set-tree-insertion-runs", random(ord_runs_cases(id, "set", "tree", vec!["u64", "bare"], [0, 4, 2, 0, 1, 2, 1, 2, 4, 1]), n(400, 10_000)), rule.clone(), &[]));
+            v.push(job("set-list-insertion-runs", random(ord_runs_cases(id, "set", "list", vec!["u64"], [0, 4, 2, 0, 1, 2, 1, 2, 4, 1]), n(200, 5_000)), rule.clone(), &[]));
             for coll in ["tree", "list"] {
                 v.push(job(&format!("key-{}-big", coll), random(key_cases(id, key_mix(coll, &[300, 3000], 1500, 30, [50, 6, 6, 6, 8, 16, 1, 1], 300..=1500, Some(0..=600))), n(100, 3_000)), rule.clone(), &[]));
                 v.push(job(&format!("map-{}-big", coll), random(ord_cases(id, ord_mix("map", coll, &["u64", "string"], &[300, 3000], mw, 300..=1500, 3)), n(100, 3_000)), rule.clone(), &[]));
@@ -547,6 +551,8 @@ pub fn jobs(pn: u32, tier: Tier) -> Vec<Job> {
                 v.push(job(&format!("map-{}-big-clear-big", coll), random(ord_clear_cases_sized(id, "map", coll, vec!["u64", "string"], vec![300, 3000], 100..=500), n(60, 2_000)), rule.clone(), &[]));
                 v.push(job(&format!("set-{}-big-clear-big", coll), random(ord_clear_cases_sized(id, "set", coll, vec!["u64", "string"], vec![300, 3000], 100..=500), n(60, 2_000)), rule.clone(), &[]));
             }
+            v.push(job("key-tree-full-universe-mass-expiry", random(key_full_universe_cases(id, "tree"), n(3_000, 80_000)), rule.clone(), &[]));
+            v.push(job("key-list-full-universe-mass-expiry", random(key_full_universe_cases(id, "list"), n(1_000, 30_000)), rule.clone(), &[]));
             v.push(job("key-tree-deep", JobKind::Fixed { cases: key_deep_cases(id, !q, true, true), stop_on_first: false }, Rule::any("a structure with a root-to-leaf path of >= 33 nodes", &["height_ge_33"]), &[]));
             for fam in ["map", "set"] {
                 v.push(job(&format!("{}-tree-deep", fam), JobKind::Fixed { cases: ord_deep_cases(id, fam, "u64", !q), stop_on_first: false }, Rule::any("a structure with a root-to-leaf path of >= 33 nodes", &["height_ge_33"]), &[]));
@@ -570,7 +576,7 @@ pub fn jobs(pn: u32, tier: Tier) -> Vec<Job> {
             let rule = Rule::all("history with >=2 arena growth events and >=100 removals after the last growth", &["c11_nontrivial"]);
             let w = [40, 34, 1, 0, 1, 0, 0, 10, 0, 0];
             let lens = if q { 400..=2000 } else { 2000..=20000 };
-            for (fam, vals) in [("map", vec!["u64", "string", "wide"]), ("set", vec!["u64", "string", "wide"])] {
+            for (fam, vals) in [("map", vec!["u64", "string", "wide", "big"]), ("set", vec!["u64", "string", "wide", "big"])] {
                 v.push(job(&format!("{}-tree-long-churn", fam), random(ord_cases(id, ord_mix(fam, "tree", &vals, &[20, 40, 100], w, lens.clone(), 1)), n(480, 500)), rule.clone(), &["arena_growth_x2", "clear_after_growth"]));
                 v.push(job(&format!("{}-tree-enum", fam), JobKind::Enumerate { spec: ord_enum(id, fam, "tree", "u64", if q { 5 } else { 7 }, true, &[], 2_000_000) }, Rule::any("transition that removes an entry", &["rm_two_children", "rm_black_leaf", "rm_red_leaf", "rm_one_child", "rm_last"]), &[]));
             }
@@ -599,8 +605,8 @@ pub fn jobs(pn: u32, tier: Tier) -> Vec<Job> {
             for coll in ["tree", "list"] {
                 let krule = Rule::all("prefix left >=3 entries (>=1 expired but not removed) and the suffix made >=5 twin observations", &["clear_ge_3_stored", "clear_with_expired_stored", "twin_obs_ge_5"]);
                 v.push(job(&format!("key-{}", coll), random(key_clear_cases(id, coll, vec![4, 6, 16], 4, 2), n(5_000, 120_000)), krule, &["clock_restarted_earlier", "clear_empty", "twin_obs_ge_5"]));
-                v.push(job(&format!("map-{}", coll), random(ord_clear_cases(id, "map", coll, vec!["u64", "string", "wide"], vec![6, 16, 40]), n(4_000, 100_000)), rule.clone(), if coll == "tree" { &req } else { &req[..1] }));
-                v.push(job(&format!("set-{}", coll), random(ord_clear_cases(id, "set", coll, vec!["u64", "string", "wide"], vec![6, 16, 40]), n(4_000, 100_000)), rule.clone(), if coll == "tree" { &req } else { &req[..1] }));
+                v.push(job(&format!("map-{}", coll), random(ord_clear_cases(id, "map", coll, if coll == "tree" { vec!["u64", "string", "wide", "big"] } else { vec!["u64", "string", "wide"] }, vec![6, 16, 40]), n(4_000, 100_000)), rule.clone(), if coll == "tree" { &req } else { &req[..1] }));
+                v.push(job(&format!("set-{}", coll), random(ord_clear_cases(id, "set", coll, if coll == "tree" { vec!["u64", "string", "wide", "big"] } else { vec!["u64", "string", "wide"] }, vec![6, 16, 40]), n(4_000, 100_000)), rule.clone(), if coll == "tree" { &req } else { &req[..1] }));
             }
             v.push(job("seg", random(seg_clear_cases(id), n(5_000, 120_000)), Rule::all("prefix left >=3 values (>=1 expired) and the suffix made >=5 twin observations", &["clear_ge_3_stored", "clear_with_expired_stored", "twin_obs_ge_5"]), &["clock_restarted_earlier", "clear_empty"]));
             // big prefixes: arenas grown several times, long bucket lists
@@ -683,10 +689,10 @@ pub fn jobs(pn: u32, tier: Tier) -> Vec<Job> {
         17 => {
             let rule = Rule::all("an insertion during which the parent link of a held entry changed (rotation around a designated entry)", &["rotation_around_held_entry"]);
             let w = [60, 10, 10, 1, 3, 6, 2, 4, 0, 0];
-            for (fam, vals) in [("map", vec!["u64", "string", "wide"]), ("set", vec!["u64", "string", "bare", "wide"])] {
+            for (fam, vals) in [("map", vec!["u64", "string", "wide", "big"]), ("set", vec!["u64", "string", "bare", "wide", "big"])] {
                 v.push(job(&format!("{}-tree-held-handles", fam), random(ord_cases(id, ord_mix(fam, "tree", &vals, &[16, 64, 300, 2000], w, 0..=150, 1)), n(8_000, 200_000)), rule.clone(), &["held_ge_2_across_insert"]));
                 v.push(job(&format!("{}-tree-held-handles-big", fam), random(ord_cases(id, ord_mix(fam, "tree", &vals, &[1000, 5000], [70, 2, 4, 0, 0, 4, 2, 1, 0, 0], 200..=700, 1)), n(100, 3_000)), rule.clone(), &["height_ge_6"]));
-                v.push(job(&format!("{}-tree-insertion-runs", fam), random(ord_runs_cases(id, fam, "tree", vals.clone(), [2, 0, 1, 0, 0, 1, 0, 0, 0, 0]), n(600, 15_000)), rule.clone(), &["run_ascending", "run_descending"]));
+                v.push(job(&format!("{}-tree-insertion-runs", fam), random(ord_runs_cases(id, fam, "tree", vals.clone(), [2, 0, 1, 0, 1, 1, 0, 0, 0, 0]), n(600, 15_000)), rule.clone(), &["run_ascending", "run_descending"]));
                 v.push(job(&format!("{}-tree-deep", fam), JobKind::Fixed { cases: ord_deep_cases(id, fam, "u64", !q), stop_on_first: false }, Rule::any("a structure with a root-to-leaf path of >= 33 nodes", &["height_ge_33"]), &[]));
                 v.push(job(&format!("{}-tree-huge", fam), random(ord_huge_cases(id, fam, "tree", vec!["u64", "string"], [60, 6, 10, 0, 0, 6, 2, 2, 0, 0], 270_000), n(3, 50)), Rule::any("a structure of >=4096 entries built by a bulk fill", &["stored_ge_4096"]), &["stored_ge_4096"]));
                 v.push(job(&format!("{}-tree-enum", fam), JobKind::Enumerate { spec: ord_enum(id, fam, "tree", "u64", if q { 6 } else { 8 }, false, &[], 2_000_000) }, rule.clone(), &[]));
@@ -717,6 +723,7 @@ pub fn jobs(pn: u32, tier: Tier) -> Vec<Job> {
             let rule = Rule::all("export of a tree/list physically holding >=12 entries (the size at which the original over-allocation exceeded the bound)", &["export_cap_ge_12"]);
             v.push(job("export-size-ladder", JobKind::Fixed { cases: export_ladder(id, !q), stop_on_first: true }, rule.clone(), &["export_cap_ge_100"]));
             v.push(job("export-random-tree", random(key_cases(id, key_mix("tree", &[16, 64, 400], 40, 6, [60, 4, 4, 4, 4, 16, 1, 0], 0..=600, Some(0..=30))), n(3_000, 80_000)), rule.clone(), &[]));
+            v.push(job("export-full-universe-mass-expiry", random(key_full_universe_cases(id, "tree"), n(4_000, 100_000)), Rule::any("export of a tree in which >=1 expired entry is still stored", &["export_expired_stored"]), &[]));
             v.push(job("export-deep", JobKind::Fixed { cases: key_deep_cases(id, !q, true, true), stop_on_first: false }, Rule::any("a structure with a root-to-leaf path of >= 33 nodes", &["height_ge_33"]), &[]));
             v.push(job("export-huge", random(key_huge_cases(id, "tree", [40, 4, 4, 4, 4, 16, 0, 0], 270_000, true), n(3, 60)), Rule::any("a structure of >=4096 entries built by a bulk fill", &["stored_ge_4096"]), &["stored_ge_4096"]));
             v.push(job("export-random-list", random(key_cases(id, key_mix("list", &[16, 64, 400], 40, 6, [60, 4, 4, 4, 4, 16, 1, 0], 0..=600, Some(0..=30))), n(1_500, 40_000)), rule, &[]));
